@@ -382,6 +382,16 @@ def directed_programs(ctx):
         steps = [C("GenInfo", "B", sh="nosh"), C("GenScales", "B", src="B", type="image", enc="raw", max="all"),
                  C("Vol", "B"), C("Compute", "B", m="auto")]
         out.append(prog(v, (aio + steps) if n == 0 else (steps + aio), input_range=rngopt))
+    # --outside-value on every downscaling command, odd sizes along the downscaled axes (the border
+    # blocks are completed with it): all-in-one versus steps; the values differ from the data range
+    # so that a command that ignores the option writes other border voxels
+    for n, (dt, ov) in enumerate([("uint8", 250), ("uint16", 60000), ("uint8", 100.5)]):
+        v = vol([rng.choice([131, 133, 145, 259]), 3, 3], iso, dt)
+        v["hi"] = 40
+        aio = [C("AllInOne", "A", type="image", enc="raw", m=["auto", "average"][n % 2])]
+        steps = [C("GenInfo", "B", sh="nosh"), C("GenScales", "B", src="B", type="image", enc="raw", max="all"),
+                 C("Vol", "B"), C("Compute", "B", m=["auto", "average"][n % 2])]
+        out.append(prog(v, (aio + steps) if n % 2 == 0 else (steps + aio), outside_value=ov))
     # sizes that are EXACT multiples of the chunk size on one axis (one chunk exactly, two chunks
     # exactly): all-in-one versus steps
     for n, shape in enumerate([[3, 2, 64], [2, 3, 128], [64, 2, 3], [2, 128, 3], [64, 64, 1]]):
